@@ -1,8 +1,9 @@
 #!/venv/bin/python
-"""usage: tools/seed_eval.py /tmp/seed/C01a [--checks C01,C06] [--scale 1.0] [--keep]
-Confirms a seeded change (applies to /repo, demo passes without / fails with it, pinned suite
-unchanged), then runs the given checks (default: the property's own) against it and reverts.
-With --keep, copies it to /verif/seeded/<name>/ with the verification recorded in meta.json."""
+"""usage: tools/seed_eval.py /tmp/seed/C01a [--checks C01,C06] [--scale 1.0] [--keep] [--skip-suite]
+Confirms a seeded change in a scratch worktree of /repo (patch applies; demo exits 0 without and 1 with it;
+pinned suite unchanged), then runs the given checks (default: the property's own quick check) against that
+worktree (TFV_REPO) with evidence redirected (TFV_OUT).  /repo and /verif/evidence are never touched.
+With --keep, copies the seed to /verif/seeded/<name>/ with the verification recorded in meta.json."""
 import argparse, json, os, shutil, subprocess, sys
 
 ap = argparse.ArgumentParser()
@@ -15,48 +16,46 @@ a = ap.parse_args()
 d = a.dir.rstrip("/")
 name = os.path.basename(d)
 meta = json.load(open(os.path.join(d, "meta.json")))
-prop = meta.get("property", name[:3])
+prop = name[:3]
 checks = a.checks.split(",") if a.checks else [prop]
-env = dict(os.environ, LIBGRAPHQLPARSER_DIR="/verif/.build", PYTHONPATH="/verif:/repo")
+wt = "/tmp/wt/eval_%s" % name
+out = "/tmp/seed_out/eval_%s" % name
 
 
 def sh(cmd, **kw):
     return subprocess.run(cmd, shell=True, capture_output=True, text=True, **kw)
 
 
-def demo():
-    return sh("/venv/bin/python %s/demo.py" % d, env=env, cwd="/tmp").returncode
-
-
-def suite():
-    r = sh("cd /repo && timeout 1200 /venv/bin/python -m pytest -q -p no:cacheprovider --timeout=900 --continue-on-collection-errors 2>&1 | tail -1")
-    return r.stdout.strip()
-
-
-assert sh("git -C /repo status --porcelain").stdout.strip() == "", "/repo not clean"
-res = {"demo_without": demo()}
-ap_ = sh("git -C /repo apply %s/patch.diff" % d)
-if ap_.returncode != 0:
-    print("PATCH DOES NOT APPLY:", ap_.stderr[:500]); sys.exit(3)
-shutil.rmtree("/tmp/tfv_ev_backup", ignore_errors=True)
-shutil.copytree("/verif/evidence", "/tmp/tfv_ev_backup")
-before = set(os.listdir("/verif/replays")) if os.path.isdir("/verif/replays") else set()
+sh("git -C /repo worktree remove --force %s" % wt)
+sh("git -C /repo worktree prune")
+r = sh("git -C /repo worktree add -q --detach %s HEAD" % wt)
+assert r.returncode == 0, r.stderr
+env = dict(os.environ, LIBGRAPHQLPARSER_DIR="/verif/.build", PYTHONPATH="/verif:" + wt)
+res = {}
 try:
+    def demo():
+        return sh("/venv/bin/python %s/demo.py" % d, env=env, cwd="/tmp").returncode
+
+    def suite():
+        return sh("cd %s && timeout 1200 /venv/bin/python -m pytest -q -p no:cacheprovider --timeout=900 --continue-on-collection-errors 2>&1 | tail -1" % wt).stdout.strip()
+
+    res["demo_without"] = demo()
+    ap_ = sh("git -C %s apply %s/patch.diff" % (wt, d))
+    if ap_.returncode != 0:
+        print("%s PATCH DOES NOT APPLY: %s" % (name, ap_.stderr[:300]))
+        sys.exit(3)
     res["demo_with"] = demo()
     res["suite_with"] = "skipped" if a.skip_suite else suite()
     res["checks"] = {}
+    shutil.rmtree(out, ignore_errors=True)
+    os.makedirs(out)
     for c in checks:
-        r = sh("/verif/check %s --scale %s" % (c, a.scale))
+        r = sh("/verif/check %s --scale %s" % (c, a.scale), env=dict(os.environ, TFV_REPO=wt, TFV_OUT=out))
         tail = [l for l in r.stdout.strip().splitlines() if not l.startswith("KNOWN-FINDING")]
         res["checks"][c] = {"rc": r.returncode, "verdict": {0: "MISSED", 1: "CAUGHT"}.get(r.returncode, "HARNESS-ERROR"), "tail": "\n".join(tail[-12:])[:1500]}
 finally:
-    sh("git -C /repo checkout -- .")
-    shutil.rmtree("/verif/evidence", ignore_errors=True)
-    shutil.copytree("/tmp/tfv_ev_backup", "/verif/evidence")
-    shutil.rmtree("/tmp/tfv_ev_backup", ignore_errors=True)
-    if os.path.isdir("/verif/replays"):
-        for x in set(os.listdir("/verif/replays")) - before:
-            os.remove(os.path.join("/verif/replays", x))
+    sh("git -C /repo worktree remove --force %s" % wt)
+    shutil.rmtree(out, ignore_errors=True)
 ok = res["demo_without"] == 0 and res["demo_with"] == 1 and (a.skip_suite or "641 passed" in res["suite_with"])
 print("%s confirmed=%s demo_without=%s demo_with=%s suite=%r" % (name, ok, res["demo_without"], res["demo_with"], res["suite_with"]))
 for c, v in res["checks"].items():
@@ -64,11 +63,19 @@ for c, v in res["checks"].items():
     if v["verdict"] != "CAUGHT":
         print("    " + v["tail"].replace("\n", "\n    ")[:600])
 if a.keep and ok:
-    out = "/verif/seeded/%s" % name
-    os.makedirs(out, exist_ok=True)
+    dst = "/verif/seeded/%s" % name
+    os.makedirs(dst, exist_ok=True)
     for f in ("patch.diff", "demo.py"):
-        shutil.copy(os.path.join(d, f), out)
-    meta["confirmed"] = {"demo_exit_without_patch": res["demo_without"], "demo_exit_with_patch": res["demo_with"], "pinned_suite_with_patch": res["suite_with"],
-                         "how": "tools/seed_eval.py: git -C /repo apply patch.diff; LIBGRAPHQLPARSER_DIR=/verif/.build PYTHONPATH=/verif:/repo /venv/bin/python demo.py; pinned pytest command; ./check <ID>; git -C /repo checkout -- ."}
+        shutil.copy(os.path.join(d, f), dst)
+    old = {}
+    if os.path.exists(os.path.join(dst, "meta.json")):
+        old = json.load(open(os.path.join(dst, "meta.json")))
+    meta["property"] = prop
+    conf = (old.get("confirmed") or {})
+    conf.update({"demo_exit_without_patch": res["demo_without"], "demo_exit_with_patch": res["demo_with"],
+                 "how": "tools/seed_eval.py: scratch worktree of /repo; git apply patch.diff; LIBGRAPHQLPARSER_DIR=/verif/.build PYTHONPATH=/verif:<worktree> /venv/bin/python demo.py; pinned pytest command in the worktree; TFV_REPO=<worktree> ./check <ID>; worktree removed"})
+    if not a.skip_suite or "pinned_suite_with_patch" not in conf or conf.get("pinned_suite_with_patch") == "skipped":
+        conf["pinned_suite_with_patch"] = res["suite_with"]
+    meta["confirmed"] = conf
     meta["checks"] = {c: v["verdict"] for c, v in res["checks"].items()}
-    json.dump(meta, open(os.path.join(out, "meta.json"), "w"), indent=1)
+    json.dump(meta, open(os.path.join(dst, "meta.json"), "w"), indent=1)
